@@ -14,6 +14,7 @@ import Postcard.Model.Crc
 import Postcard.Model.CrcDe
 import Postcard.Model.Accumulator
 import Postcard.Model.SexpMTy
+import Postcard.Props.C12Exact
 import Postcard.Model.Fixint
 import Postcard.Model.DeFlavor
 import Postcard.Model.SexpCT
@@ -381,7 +382,12 @@ def handle (line : String) : String :=
       | _, _ => "bad-op"
     | "maxsize", [m] =>
       match mtyOfSexp m with
-      | some m => s!"ok {maxSize m}"
+      | some m =>
+        -- maxSize mirrors the code's arithmetic; encMax is the EXACT supremum of encoded lengths
+        -- (Props/C12Exact: c12_decided_by_encMax); `listed` = the kinds the property calls tight;
+        -- `pop` = the hypotheses under which encMax is attained (bound_iff_encMax_le)
+        let b (x : Bool) : String := if x then "1" else "0"
+        s!"ok {maxSize m} exact={encMax m} listed={b m.listed} pop={b (m.populated && m.optionsPopulated)} wf={b m.wf}"
       | none => "bad-op"
     | "fix", [.atom order, .atom ty, .atom x] =>
       match intOfName ty, parseInt x with
